@@ -28,6 +28,9 @@ EXPLANATION = (
     ' R07.3 requires the advance of the running point on every path through the loop body: a branch that writes'
     ' a segment and leaves the iteration (continue/break) is reported; isinstance tests against a single class'
     ' count towards the coverage of segment kinds.'
+    ' R07.6: the reader side of the smooth shorthand - C01 R01.5 (T/S reflect the previous control point only'
+    ' after a curve of the same degree) - runs here because svg_d writes T for a quadratic after a'
+    ' non-quadratic whenever its control equals its start.'
 )
 TECHNIQUE = (
     "static analysis (no execution): writer followed by partial evaluation per (mode, form) and compared, operand by operand, with the reader table derived from the lexer summaries and the builder summaries; format-conversion precision lint"
